@@ -66,6 +66,9 @@ func (eng *Engine) lookupObj(ctxPkg, qual string) types.Object {
 func (eng *Engine) CheckStructural() []*StructResult {
 	var out []*StructResult
 	for _, d := range eng.specs.Structs {
+		if d.Kind == "guarded" {
+			continue // becomes obligations of the functions that access the fields (exec.go, guardedAccess)
+		}
 		r := &StructResult{Tags: d.Tags, Where: fmt.Sprintf("%s:%d", d.File, d.Line)}
 		func() {
 			defer func() {
@@ -422,4 +425,58 @@ func (eng *Engine) hasContractShort(name string) bool {
 		}
 	}
 	return false
+}
+
+// guarded NAME Type: F1, F2 by path.to.Mutex of Owner except fn1, fn2
+// Lock-set discipline as a contract: in every function under contract (other than the listed ones, where
+// the owner is not yet shared or the caller holds the lock), an access to one of the fields must happen
+// while the mutex of the owner value in scope (a parameter, receiver or captured variable of type *Owner)
+// is held. Each access becomes an obligation of kind "guarded".
+type guardDecl struct {
+	tags    []string
+	label   string
+	pkg     string
+	typ     string
+	fields  map[string]bool
+	lock    string
+	owner   string
+	except  map[string]bool
+	src     string
+}
+
+func (eng *Engine) guards() []*guardDecl {
+	if eng.guardCache != nil {
+		return eng.guardCache
+	}
+	eng.guardCache = []*guardDecl{}
+	for _, d := range eng.specs.Structs {
+		if d.Kind != "guarded" {
+			continue
+		}
+		args := d.Args
+		g := &guardDecl{tags: d.Tags, pkg: d.Pkg, fields: map[string]bool{}, except: map[string]bool{}, src: args}
+		i := strings.Index(args, ":")
+		j := strings.Index(args, " by ")
+		k := strings.Index(args, " of ")
+		if i < 0 || j < i || k < j {
+			panic("guarded: expected 'NAME Type: F1, F2 by lock.path of Owner [except f, g]'")
+		}
+		head := strings.Fields(args[:i])
+		g.typ = head[len(head)-1]
+		g.label = strings.Join(head[:len(head)-1], " ")
+		for _, f := range strings.Split(args[i+1:j], ",") {
+			g.fields[strings.TrimSpace(f)] = true
+		}
+		g.lock = strings.TrimSpace(args[j+4 : k])
+		rest := args[k+4:]
+		if e := strings.Index(rest, " except "); e >= 0 {
+			for _, f := range strings.Split(rest[e+8:], ",") {
+				g.except[strings.TrimSpace(f)] = true
+			}
+			rest = rest[:e]
+		}
+		g.owner = strings.TrimSpace(rest)
+		eng.guardCache = append(eng.guardCache, g)
+	}
+	return eng.guardCache
 }
